@@ -34,6 +34,8 @@ const (
 	MaxTagLength         = 70  // maximum length of the tag
 
 	MaxProvidersNum = 10 // maximum total number of the providers to request
+
+	MaxRepeatedFrequency = uint64(1) << 62 // maximum repeated frequency; keeps the next batch height within int64
 )
 
 // the service name only accepts alphanumeric characters, _ and -, beginning with alpha character
@@ -941,6 +943,10 @@ func ValidateRequest(
 			return sdkerrors.Wrapf(ErrInvalidRepeatedFreq, "repeated frequency [%d] must not be less than timeout [%d]", repeatedFrequency, timeout)
 		}
 
+		if repeatedFrequency > MaxRepeatedFrequency {
+			return sdkerrors.Wrapf(ErrInvalidRepeatedFreq, "repeated frequency [%d] must not be greater than %d", repeatedFrequency, MaxRepeatedFrequency)
+		}
+
 		if repeatedTotal < -1 || repeatedTotal == 0 {
 			return sdkerrors.Wrapf(ErrInvalidRepeatedTotal, "repeated total number [%d] must be greater than 0 or equal to -1", repeatedTotal)
 		}
@@ -973,6 +979,10 @@ func ValidateRequestContextUpdating(
 
 	if timeout != 0 && repeatedFrequency != 0 && repeatedFrequency < uint64(timeout) {
 		return sdkerrors.Wrapf(ErrInvalidRepeatedFreq, "frequency [%d] must not be less than timeout [%d]", repeatedFrequency, timeout)
+	}
+
+	if repeatedFrequency > MaxRepeatedFrequency {
+		return sdkerrors.Wrapf(ErrInvalidRepeatedFreq, "repeated frequency [%d] must not be greater than %d", repeatedFrequency, MaxRepeatedFrequency)
 	}
 
 	if repeatedTotal < -1 {
